@@ -56,7 +56,7 @@ class Check(FormulaCheck):
             'HEX2DEC(DEC2HEX(n)), DECIMAL(BASE(n,r),r), ARABIC(ROMAN(n)), ROMAN(n,form), IMREAL/IMAGINARY(COMPLEX(a,b)); numbers are integers and '
             'dyadic/decimal fractions of either sign (|x| <= 1e9), digits -6..6, significances of either sign; 1..3999 x forms 0..4 is exhaustive. '
             'non-trivial = oracle fully evaluated; distinct = distinct (function, arguments).')
-    ASSUMPTIONS = ('CEILING/FLOOR of a positive number with a negative significance may be an error or the adjacent multiple on the function\'s own side; significance 0 is not judged; ROUND tie direction is free',
+    ASSUMPTIONS = ('CEILING/FLOOR of a positive number with a negative significance may be an error or the adjacent multiple on the function\'s own side; significance 0 gives 0 or an error; ROUND tie direction is free',
                    'FACT arguments <= 170, FACTDOUBLE <= 300; bounded time is decided in line events (budget 20000+400*len), never in seconds',
                    'out-of-range arguments must give any error code, never a value')
 
@@ -144,6 +144,11 @@ class Check(FormulaCheck):
                     ok = abs(R - X) <= bb
                 self.expect('C17/%s:not-adjacent-multiple-on-documented-side:%s' % (fn, 'neg-neg' if (x < 0 and s < 0) else 'neg-pos' if x < 0 else 'pos-pos'),
                             ok, x=x, significance=s, got=r)
+            if rnd.random() < 0.1:
+                # significance 0: the only multiple of 0 is 0 - that, or an error
+                for fn in ('CEILING', 'FLOOR'):
+                    r = self.ev('%s(v_x,0)' % fn, v_x=x)
+                    self.expect('C17/%s:significance-0-yields-a-non-multiple' % fn, self.is_err(r) or (finite(r) and r == 0), x=x, got=r)
             if rnd.random() < 0.3:
                 for fn in ('CEILING', 'FLOOR'):
                     r = self.ev('%s(v_x)' % fn, v_x=x)
